@@ -199,17 +199,21 @@ func (e *natsEnv) svc(proto string, fresh bool) (*natsSvc, error) {
 	s.proc = newProcessor()
 	pf := protoFactory(proto)
 	s.server = frugal.NewFNatsServerBuilder(s.srvConn, s.proc, pf, []string{s.subject}).Build()
+	subs0 := e.srv.NumSubscriptions()
 	go s.server.Serve()
-	// wait until the subscription is active
-	for i := 0; i < 200; i++ {
+	// wait until the broker knows the server's queue subscription (Serve subscribes asynchronously)
+	ready := false
+	for i := 0; i < 2000 && !ready; i++ {
 		s.srvConn.Flush()
-		if e.srv.NumSubscriptions() >= 2 {
-			break
+		if e.srv.NumSubscriptions() > subs0 {
+			ready = true
+		} else {
+			time.Sleep(5 * time.Millisecond)
 		}
-		time.Sleep(5 * time.Millisecond)
 	}
-	time.Sleep(20 * time.Millisecond)
-	s.srvConn.Flush()
+	if !ready {
+		return nil, fmt.Errorf("frugal NATS server did not subscribe")
+	}
 	s.tr = frugal.NewFNatsTransport(s.cliConn, s.subject, "")
 	if err := s.tr.Open(); err != nil {
 		return nil, err
